@@ -192,18 +192,20 @@ def corpus(repo: str) -> list[dict]:
     # white-box round: changes written against the checker itself (sub-agents that could run it as a black box).
     # Evasions that a clause now catches are breaking variants; refactorings that made it complain and no longer do
     # are benign variants.
-    rd = VERIF / "redteam"
-    if rd.is_dir():
+    for dirname, tag in (("redteam", "W"), ("redteam2", "X")):
+        rd = VERIF / dirname
+        if not rd.is_dir():
+            continue
         for d in sorted(rd.iterdir()):
             meta = d / "meta.json"
             if not (meta.exists() and (d / "patch.diff").exists()):
                 continue
             m = json.loads(meta.read_text())
             if m.get("kind") == "evade" and m.get("expected_rules"):
-                vs.append({"id": f"W-{d.name}", "kind": "break", "patch": str(d / "patch.diff"), "rules": m["expected_rules"],
+                vs.append({"id": f"{tag}-{d.name}", "kind": "break", "patch": str(d / "patch.diff"), "rules": m["expected_rules"],
                            "props": m.get("props"), "need": "all", "what": "white-box evasion: " + m.get("summary", "")[:100]})
             elif m.get("kind") == "noise" and m.get("status") == "silent":
-                vs.append({"id": f"W-{d.name}", "kind": "benign", "patch": str(d / "patch.diff"),
+                vs.append({"id": f"{tag}-{d.name}", "kind": "benign", "patch": str(d / "patch.diff"),
                            "what": "white-box refactoring: " + m.get("summary", "")[:100]})
     return vs
 
